@@ -7,6 +7,7 @@ import (
 	"os"
 	"path/filepath"
 	"regexp"
+	"runtime/debug"
 	"sort"
 	"strings"
 	"sync"
@@ -18,24 +19,24 @@ import (
 )
 
 type HarnessResult struct {
-	Name        string                            `json:"name"`
-	Pkg         string                            `json:"pkg"`
-	Status      string                            `json:"status"` // ok | violation | error
-	Error       string                            `json:"error,omitempty"`
-	Violations  []*violation                      `json:"violations,omitempty"`
-	Reached     map[string]map[string]interface{} `json:"reached"`
-	Paths       int                               `json:"paths"`
-	States      int                               `json:"states"`
-	Instrs      int64                             `json:"instrs"`
-	Queries     int                               `json:"queries"`
-	Sat         int                               `json:"sat"`
-	Unsat       int                               `json:"unsat"`
-	Unknown     int                               `json:"unknown"`
-	SolverS     float64                           `json:"solver_s"`
-	WallS       float64                           `json:"wall_s"`
-	Funcs       []string                          `json:"functions_encoded"`
-	Solver      string                            `json:"solver"`
-	ModelOnly   bool                              `json:"model_only"`
+	Name       string                            `json:"name"`
+	Pkg        string                            `json:"pkg"`
+	Status     string                            `json:"status"` // ok | violation | error
+	Error      string                            `json:"error,omitempty"`
+	Violations []*violation                      `json:"violations,omitempty"`
+	Reached    map[string]map[string]interface{} `json:"reached"`
+	Paths      int                               `json:"paths"`
+	States     int                               `json:"states"`
+	Instrs     int64                             `json:"instrs"`
+	Queries    int                               `json:"queries"`
+	Sat        int                               `json:"sat"`
+	Unsat      int                               `json:"unsat"`
+	Unknown    int                               `json:"unknown"`
+	SolverS    float64                           `json:"solver_s"`
+	WallS      float64                           `json:"wall_s"`
+	Funcs      []string                          `json:"functions_encoded"`
+	Solver     string                            `json:"solver"`
+	ModelOnly  bool                              `json:"model_only"`
 }
 
 func buildOverlay(repo, verif string) (map[string][]byte, error) {
@@ -166,9 +167,9 @@ func runAll(repo, verif string, pkgPats []string, hre, solver, tier string, time
 	}
 	re := regexp.MustCompile(hre)
 	type job struct {
-		pkg   *ssa.Package
-		fn    *ssa.Function
-		shard int
+		pkg    *ssa.Package
+		fn     *ssa.Function
+		shard  int
 		nshard int
 	}
 	var jobsL []job
@@ -297,7 +298,7 @@ func runHarness(prog *ssa.Program, pkg *ssa.Package, fn *ssa.Function, solver, t
 				res.Status, res.Error = "error", ee.msg
 				return
 			}
-			panic(r)
+			res.Status, res.Error = "error", fmt.Sprintf("engine panic: %v\n%s", r, debug.Stack())
 		}
 	}()
 	// base state: run package initialisers
@@ -337,7 +338,7 @@ func runHarness(prog *ssa.Program, pkg *ssa.Package, fn *ssa.Function, solver, t
 func (e *Engine) newState() *State {
 	e.nstate++
 	return &State{id: e.nstate, heap: map[int]*Object{}, known: map[int]bool{}, ndCnt: map[string]int{},
-		pools: map[string][]Value{}, bpools: map[int][]int{}, reached: map[string]bool{}, ghost: map[string]int{}, unwind: 64}
+		pools: map[string][]Value{}, bpools: map[int][]int{}, reached: map[string]bool{}, ghost: map[string]int{}, unwind: 64, switchesLeft: 2}
 }
 
 // runInit executes the init functions of allow-listed packages in dependency order.
